@@ -78,6 +78,10 @@ func ProvideMintFn(bankKeeper BankKeeper) minttypes.MintFn {
 		secondsSinceLastMint := env.HeaderService.HeaderInfo(ctx).Time.Unix() - (int64)(lastMint)
 
 		blockProvision := annualProvision.Mul(math.NewInt(secondsSinceLastMint)).Quo(math.NewInt(secondsPerYear))
+		// a gap of more than one year must not mint more than the annual provision (which is what keeps the supply under the cap)
+		if blockProvision.GT(annualProvision) {
+			blockProvision = annualProvision
+		}
 
 		if blockProvision.IsPositive() {
 			res, err := env.QueryRouterService.Invoke(ctx, &liquidityincentivetypes.QueryParamsRequest{})
